@@ -402,8 +402,10 @@ func (s *Module) defineSyncStage() error {
 	}
 
 	if s.syncStage == headersSynced|blocksSynced|mptSynced {
-		s.log.Info("state is in sync, starting regular blocks processing")
-		s.syncStage = inactive
+		// Everything is fetched, but the chain is still below the state sync point
+		// (otherwise Init wouldn't reach this code), which means that the node was
+		// stopped right before the state jump. Perform it now.
+		s.checkSyncIsCompleted()
 	}
 	return nil
 }
